@@ -41,6 +41,7 @@ class Contract:
         # heavier instantiation strategies, switched on per contract (they multiply the ground facts)
         self.engine_opts = kw.pop("engine_opts", {})
         self.raises = kw.pop("raises", None)  # {exception class name: condition text}: raised iff condition
+        self.may_raise = kw.pop("may_raise", None)  # exception class names a raising path may have (nothing else)
         self.opts = kw
         if kw.keys() - {"note", "canaries", "max_paths", "replay_candidates"}:
             raise TypeError("unknown contract options %s" % sorted(kw))
@@ -530,6 +531,19 @@ def verify_config(I, c, fn, specf, cfg):
                     st = "failed" if status == "sat" else "undecided"
                 detail = "real %s vs spec %s: %s | %s" % (real.describe(), sp.describe(), msg, notes)
             res.append(Obligation(name, c.target, cfg, st, detail, model, ms=1000 * (time.time() - t0)))
+        # "raises nothing but ...": the exception class of every raising path is one of the listed ones
+        if c.may_raise is not None and real.kind == "raise":
+            t1 = time.time()
+            en = real.exc.cls.name
+            oname = "%s#%d:raises-only (%s)" % (tag, k, en)
+            if en in c.may_raise:
+                res.append(Obligation(oname, c.target, cfg, "discharged", "raises only %s" % ", ".join(c.may_raise),
+                                      ms=1000 * (time.time() - t1), kind="raises-only"))
+            else:
+                model, status = model_to_inputs(I, ctx, None)
+                res.append(Obligation(oname, c.target, cfg, "failed" if status == "sat" else "undecided",
+                                      "raises %s, allowed: %s | %s" % (en, ", ".join(c.may_raise), notes), model,
+                                      ms=1000 * (time.time() - t1), kind="raises-only"))
         # exceptional postconditions: an exception of class E is raised iff its condition holds
         if c.raises is not None:
             t1 = time.time()
